@@ -229,6 +229,116 @@ def show_term(t: tuple) -> str:
     return str(t[1])
 
 
+# ------------------------------------------------------------------ set objects changed in place
+SET_GROWERS = ("add", "update")
+SET_SHRINKERS = ("discard", "remove", "pop", "clear", "difference_update", "intersection_update",
+                 "symmetric_difference_update")
+_INPLACE_SET_OPS = {ast.Sub: "-=", ast.BitOr: "|=", ast.BitAnd: "&=", ast.BitXor: "^="}
+
+
+def inplace_changes(root: ast.AST) -> list[tuple[ast.AST, ast.AST, str, bool]]:
+    """Every construct under `root` that changes a set object IN PLACE (as opposed to rebinding a name to a
+    new object): `R -= x`, `R |= x`, `R &= x`, `R ^= x` and `R.add/update/discard/remove/pop/clear/
+    difference_update/intersection_update/symmetric_difference_update(..)` with R a name or an attribute.
+    -> (construct, receiver expression R, spelling, grows-only)."""
+    out: list[tuple[ast.AST, ast.AST, str, bool]] = []
+    for n in ast.walk(root):
+        if isinstance(n, ast.AugAssign) and type(n.op) in _INPLACE_SET_OPS and isinstance(n.target, (ast.Name, ast.Attribute)):
+            out.append((n, n.target, f"{u(n.target)} {_INPLACE_SET_OPS[type(n.op)]} ..", isinstance(n.op, ast.BitOr)))
+        elif isinstance(n, ast.Call) and isinstance(n.func, ast.Attribute) and isinstance(n.func.value, (ast.Name, ast.Attribute)) \
+                and n.func.attr in SET_GROWERS + SET_SHRINKERS:
+            out.append((n, n.func.value, f"{u(n.func)}(..)", n.func.attr in SET_GROWERS))
+    return out
+
+
+def alias_closure(root: ast.AST, names: set[str]) -> set[str]:
+    """Names that may denote the same object as one of `names` inside `root`: closed under plain
+    name-to-name bindings `a = b`, `a: T = b`, `(a := b)`, `a = b if c else d` in either direction
+    (flow-insensitive, i.e. a may-alias over-approximation; a copy `set(b)`, `b.copy()`, `b - c`,
+    `frozenset(b)` is a different object and ends the chain)."""
+    edges: list[tuple[str, str]] = []
+
+    def sources(v: ast.AST | None) -> list[str]:
+        if isinstance(v, ast.Name):
+            return [v.id]
+        if isinstance(v, ast.IfExp):
+            return sources(v.body) + sources(v.orelse)
+        if isinstance(v, ast.NamedExpr):
+            return sources(v.value) + sources(v.target)
+        return []
+
+    for n in ast.walk(root):
+        tgts: list[ast.AST] = []
+        val: ast.AST | None = None
+        if isinstance(n, ast.Assign):
+            tgts, val = list(n.targets), n.value
+        elif isinstance(n, (ast.AnnAssign, ast.NamedExpr)):
+            tgts, val = [n.target], n.value
+        for t in tgts:
+            if isinstance(t, ast.Name):
+                edges.extend((t.id, s) for s in sources(val))
+            elif isinstance(t, (ast.Tuple, ast.List)) and isinstance(val, (ast.Tuple, ast.List)) and len(t.elts) == len(val.elts):
+                for te, ve in zip(t.elts, val.elts):
+                    if isinstance(te, ast.Name):
+                        edges.extend((te.id, s) for s in sources(ve))
+    out = set(names)
+    changed = True
+    while changed:
+        changed = False
+        for a, b in edges:
+            if (a in out) != (b in out):
+                out |= {a, b}
+                changed = True
+    return out
+
+
+def shared_names(e: ast.AST | None) -> set[str]:
+    """The variables whose OBJECT (not a copy) is the value of expression `e`."""
+    if isinstance(e, ast.Name):
+        return {e.id}
+    if isinstance(e, ast.IfExp):
+        return shared_names(e.body) | shared_names(e.orelse)
+    if isinstance(e, ast.NamedExpr):
+        return shared_names(e.value) | shared_names(e.target)
+    return set()
+
+
+def callee_param_changes(prog: Program, fn: FuncInfo, call: ast.Call, shared: set[str], depth: int = 2
+                         ) -> tuple[list[tuple[FuncInfo, str]], list[tuple[FuncInfo, ast.AST, str]]]:
+    """`call` (inside `fn`) hands the object of a variable in `shared` to a callee: which repository functions
+    receive it (callee, parameter; the direct callees first), and where they -- or, to `depth`, the functions
+    they pass it on to -- change it in place."""
+    seen: list[tuple[FuncInfo, str]] = []
+    hits: list[tuple[FuncInfo, ast.AST, str]] = []
+    if is_result_ctor(call):
+        return seen, hits
+    passed = [a for a in list(call.args) + [k.value for k in call.keywords] if shared_names(a) & shared]
+    if not passed:
+        return seen, hits
+    for tgt in prog.resolve_call(fn, call):
+        if not isinstance(tgt, FuncInfo):
+            continue
+        try:
+            args = bound_args(call, method_params(tgt), "call")
+        except AnalysisError:
+            continue
+        for pname, a in args.items():
+            if not (shared_names(a) & shared):
+                continue
+            seen.append((tgt, pname))
+            inner = alias_closure(tgt.node, {pname})
+            for c, recv, text, _grows in inplace_changes(tgt.node):
+                if isinstance(recv, ast.Name) and recv.id in inner:
+                    hits.append((tgt, c, text))
+            if depth > 1:
+                for c2 in ast.walk(tgt.node):
+                    if isinstance(c2, ast.Call):
+                        s2, h2 = callee_param_changes(prog, tgt, c2, inner, depth - 1)
+                        seen.extend(s2)
+                        hits.extend(h2)
+    return seen, hits
+
+
 # ------------------------------------------------------------------ emptiness guards
 def emptiness(test: ast.AST, name: str) -> bool | None:
     """True: the test holds iff collection `name` is non-empty; False: iff it is empty; None: other."""
